@@ -101,6 +101,12 @@ def run(prop, tier):
     W2 = WD.catalogue_r2(tier)
     r1 = E.explore(W1, "r1", 1, E.R1_INV["C10"], [])
     r2 = E.explore_r2(W2, 20000 if thorough else 1500, E.R2_INV["C10"], [])
+    # step-size variants of the catalogue worlds (thorough tier) that overflow 32-bit rationals are left out of the model checking by name (as in
+    # the other engine checks); their paired real runs below are kept - those do not involve TLC's integers
+    dropped = [wid for wid in r1["overflow"] if "_dt" in wid]
+    if dropped:
+        r1["overflow"] = [wid for wid in r1["overflow"] if wid not in dropped]
+        cov["step_size_variants_left_out_overflow"] = dropped
     for r in (r1, r2):
         cov["states"] += r["states"]
         cov["transitions"] += r["transitions"]
